@@ -327,6 +327,15 @@ struct Env {
     dir: std::path::PathBuf,
     sys_bytes: Vec<u8>,
     hdr: std::cell::RefCell<Hdr>,
+    /// the standard build hands matrix and lexicon to the builder as file paths (written under the work directory) instead of bytes
+    via_files: std::cell::Cell<bool>,
+}
+
+/// the bytes as a file under the work directory: the other kind of `AsDataSource`
+fn as_file(env: &Env, name: &str, bytes: &[u8]) -> std::path::PathBuf {
+    let p = env.dir.join(name);
+    std::fs::write(&p, bytes).expect("write data source file");
+    p
 }
 
 fn apply_hdr<D: DictionaryAccess>(env: &Env, b: &mut DictBuilder<D>) {
@@ -426,9 +435,18 @@ fn session(env: &Env, matrix: Option<&[u8]>, lexicon: &[u8], attempts: &[Attempt
         Some(m) => {
             let mut b = DictBuilder::new_system();
             apply_hdr(env, &mut b);
+            let files = if env.via_files.get() { Some((as_file(env, "session_matrix.def", m), as_file(env, "session_lex.csv", lexicon))) } else { None };
             let r = catch(|| {
-                b.read_conn(m).map_err(|e| format!("read_conn: {}", e))?;
-                b.read_lexicon(lexicon).map_err(|e| format!("read_lexicon: {}", e))?;
+                match &files {
+                    Some((pm, pl)) => {
+                        b.read_conn(pm.as_path()).map_err(|e| format!("read_conn: {}", e))?;
+                        b.read_lexicon(pl.as_path()).map_err(|e| format!("read_lexicon: {}", e))?;
+                    }
+                    None => {
+                        b.read_conn(m).map_err(|e| format!("read_conn: {}", e))?;
+                        b.read_lexicon(lexicon).map_err(|e| format!("read_lexicon: {}", e))?;
+                    }
+                }
                 b.resolve().map_err(|e| format!("resolve: {}", e))?;
                 // resolving again must be harmless (everything is resolved already)
                 b.resolve().map_err(|e| format!("second resolve: {}", e))?;
@@ -443,8 +461,12 @@ fn session(env: &Env, matrix: Option<&[u8]>, lexicon: &[u8], attempts: &[Attempt
             let sys = load_system(env);
             let mut b = DictBuilder::new_user(&sys);
             apply_hdr(env, &mut b);
+            let file = if env.via_files.get() { Some(as_file(env, "session_lex.csv", lexicon)) } else { None };
             let r = catch(|| {
-                b.read_lexicon(lexicon).map_err(|e| format!("read_lexicon: {}", e))?;
+                match &file {
+                    Some(pl) => b.read_lexicon(pl.as_path()).map_err(|e| format!("read_lexicon: {}", e))?,
+                    None => b.read_lexicon(lexicon).map_err(|e| format!("read_lexicon: {}", e))?,
+                };
                 b.resolve().map_err(|e| format!("resolve: {}", e))?;
                 // resolving again must be harmless (everything is resolved already)
                 b.resolve().map_err(|e| format!("second resolve: {}", e))?;
@@ -467,15 +489,24 @@ enum Op {
     Compile(Attempt),
 }
 
-fn ops_on<D: DictionaryAccess>(b: &mut DictBuilder<D>, ops: &[Op]) -> Vec<Attempted> {
+fn ops_on<D: DictionaryAccess>(env: &Env, b: &mut DictBuilder<D>, ops: &[Op], files: &[bool]) -> Vec<Attempted> {
     let mut out = vec![];
-    for op in ops {
+    for (i, op) in ops.iter().enumerate() {
+        let file = files.get(i).copied().unwrap_or(false);
         let st = |r: Result<Result<(), String>, String>| match r {
             Ok(Ok(())) => Attempted { status: "SOk", msg: String::new(), bytes: vec![] },
             Ok(Err(e)) => Attempted { status: "SErr", msg: e, bytes: vec![] },
             Err(p) => Attempted { status: "SPanic", msg: p, bytes: vec![] },
         };
         out.push(match op {
+            Op::Conn(m) if file => {
+                let p = as_file(env, &format!("history_{}_matrix.def", i), m);
+                st(catch(|| b.read_conn(p.as_path()).map_err(|e| format!("read_conn: {}", e))))
+            }
+            Op::Lex(l) if file => {
+                let p = as_file(env, &format!("history_{}_lex.csv", i), l);
+                st(catch(|| b.read_lexicon(p.as_path()).map(|_| ()).map_err(|e| format!("read_lexicon: {}", e))))
+            }
             Op::Conn(m) => st(catch(|| b.read_conn(&m[..]).map_err(|e| format!("read_conn: {}", e)))),
             Op::Lex(l) => st(catch(|| b.read_lexicon(&l[..]).map(|_| ()).map_err(|e| format!("read_lexicon: {}", e)))),
             Op::Resolve => st(catch(|| b.resolve().map(|_| ()).map_err(|e| format!("resolve: {}", e)))),
@@ -486,16 +517,16 @@ fn ops_on<D: DictionaryAccess>(b: &mut DictBuilder<D>, ops: &[Op]) -> Vec<Attemp
 }
 
 /// any history of calls on ONE builder; every call is carried out whatever the earlier ones returned
-fn run_history(env: &Env, user: bool, ops: &[Op]) -> Vec<Attempted> {
+fn run_history(env: &Env, user: bool, ops: &[Op], files: &[bool]) -> Vec<Attempted> {
     if user {
         let sys = load_system(env);
         let mut b = DictBuilder::new_user(&sys);
         apply_hdr(env, &mut b);
-        ops_on(&mut b, ops)
+        ops_on(env, &mut b, ops, files)
     } else {
         let mut b = DictBuilder::new_system();
         apply_hdr(env, &mut b);
-        ops_on(&mut b, ops)
+        ops_on(env, &mut b, ops, files)
     }
 }
 
@@ -829,6 +860,7 @@ fn run_texts(sink: &mut Sink, env: &Env, case: Option<&Case>, matrix: Option<Str
         Some(c) => {
             let mut dd = desc(c, &matrix, &lexicon, shape);
             let h = env.hdr.borrow();
+            dd["via_files"] = json!(env.via_files.get());
             dd["descr"] = json!(h.descr);
             dd["time"] = json!(h.time);
             dd
@@ -1003,12 +1035,17 @@ fn hop_name(o: &HOp) -> &'static str {
     }
 }
 
-fn hops_json(ops: &[HOp]) -> Value {
+fn source_name(files: &[bool], i: usize) -> &'static str {
+    if files.get(i).copied().unwrap_or(false) { "file" } else { "bytes" }
+}
+
+fn hops_json(ops: &[HOp], files: &[bool]) -> Value {
     json!(ops
         .iter()
-        .map(|o| match o {
-            HOp::Conn(_, t) => json!({"op": "read_conn", "text": t}),
-            HOp::Lex(_, t) => json!({"op": "read_lexicon", "text": t}),
+        .enumerate()
+        .map(|(i, o)| match o {
+            HOp::Conn(_, t) => json!({"op": "read_conn", "text": t, "source": source_name(files, i)}),
+            HOp::Lex(_, t) => json!({"op": "read_lexicon", "text": t, "source": source_name(files, i)}),
             HOp::Resolve => json!({"op": "resolve"}),
             HOp::Compile => json!({"op": "compile"}),
         })
@@ -1025,8 +1062,8 @@ struct CallObs {
 }
 
 /// run a history on the implementation; every successful compile is audited, loaded and used for analysis
-fn observe_history(env: &Env, user: bool, ops: &[Op], probes: &[String], rendered_here: bool) -> Vec<CallObs> {
-    let rs = run_history(env, user, ops);
+fn observe_history(env: &Env, user: bool, ops: &[Op], files: &[bool], probes: &[String], rendered_here: bool) -> Vec<CallObs> {
+    let rs = run_history(env, user, ops, files);
     ops.iter()
         .zip(rs.into_iter())
         .map(|(o, r)| {
@@ -1064,6 +1101,11 @@ fn observe_history(env: &Env, user: bool, ops: &[Op], probes: &[String], rendere
 }
 
 fn emit_history(sink: &mut Sink, env: &Env, user: bool, hops: &[HOp], shape: &str, verbose: bool) {
+    emit_history_src(sink, env, user, hops, &[], shape, verbose)
+}
+
+/// `files[i]`: call i hands its text to the builder as a file path instead of bytes in memory (the model is the same)
+fn emit_history_src(sink: &mut Sink, env: &Env, user: bool, hops: &[HOp], files: &[bool], shape: &str, verbose: bool) {
     let ops: Vec<Op> = hops
         .iter()
         .map(|o| match o {
@@ -1080,7 +1122,7 @@ fn emit_history(sink: &mut Sink, env: &Env, user: bool, hops: &[HOp], shape: &st
         }
     }
     probes.push("x1。".to_string());
-    let obs = observe_history(env, user, &ops, &probes, true);
+    let obs = observe_history(env, user, &ops, files, &probes, true);
     let coq_ops = clist(hops.iter().map(|o| match o {
         HOp::Conn(lines, _) => format!("OConn {}", Case { base: Base::System(lines.clone()), recs: vec![] }.coq_lines()),
         HOp::Lex(recs, _) => format!("OLex {}", Case { base: Base::User, recs: recs.clone() }.coq_recs()),
@@ -1102,8 +1144,11 @@ fn emit_history(sink: &mut Sink, env: &Env, user: bool, hops: &[HOp], shape: &st
         cbool(user), cz(SYS_NL), cz(SYS_NR), cz(SYS_WORDS as i64), ctext(env.hdr.borrow().descr.as_deref().unwrap_or("")), coq_ops, coq_obs
     );
     sink.tag(&format!("history:{}", shape));
+    if files.iter().any(|f| *f) {
+        sink.tag("history_with_file_sources");
+    }
     sink.tag_n("history_calls", hops.len() as u64);
-    let d = json!({"kind": "c06-history", "shape": shape, "user": user, "ops": hops_json(hops), "known_class": "",
+    let d = json!({"kind": "c06-history", "shape": shape, "user": user, "ops": hops_json(hops, files), "known_class": "",
                    "descr": env.hdr.borrow().descr, "time": env.hdr.borrow().time});
     let id = sink.case(term, d, true);
     let mut conn_ok = false;
@@ -1112,11 +1157,11 @@ fn emit_history(sink: &mut Sink, env: &Env, user: bool, hops: &[HOp], shape: &st
             println!("  call {} {} -> {} {}{}", i + 1, hop_name(h), o.status, o.msg, if o.fine { String::new() } else { format!("  [{}]", o.problem) });
         }
         if o.status == "SPanic" {
-            sink.fail(id, &format!("call {} ({}) of the history {} panicked: {}", i + 1, hop_name(h), history_names(hops), o.msg), "");
+            sink.fail(id, &format!("call {} ({}) of the history {} panicked: {}", i + 1, hop_name(h), history_names(hops, files), o.msg), "");
         }
         if let HOp::Compile = h {
             if o.status == "SOk" && !o.fine && (user || conn_ok) {
-                sink.fail(id, &format!("call {} (compile) of the history {} reported success, but {}", i + 1, history_names(hops), o.problem), "");
+                sink.fail(id, &format!("call {} (compile) of the history {} reported success, but {}", i + 1, history_names(hops, files), o.problem), "");
             }
         }
         if let HOp::Conn(..) = h {
@@ -1125,8 +1170,8 @@ fn emit_history(sink: &mut Sink, env: &Env, user: bool, hops: &[HOp], shape: &st
     }
 }
 
-fn history_names(hops: &[HOp]) -> String {
-    format!("[{}]", hops.iter().map(hop_name).collect::<Vec<_>>().join(", "))
+fn history_names(hops: &[HOp], files: &[bool]) -> String {
+    format!("[{}]", hops.iter().enumerate().map(|(i, h)| if files.get(i).copied().unwrap_or(false) { format!("{}(file)", hop_name(h)) } else { hop_name(h).to_string() }).collect::<Vec<_>>().join(", "))
 }
 
 /// inverse of the renderers of this file (matrix_text / lexicon_text), so that a replay can hand the abstract calls to the model
@@ -1191,6 +1236,7 @@ fn replay_history(sink: &mut Sink, env: &Env, c: &Value) {
     if c["shape"] == "rust_only" {
         // implementation only: the texts of the calls are replayed in order
         let mut ops = vec![];
+        let files: Vec<bool> = c["ops"].as_array().unwrap().iter().map(|o| o["source"] == "file").collect();
         for o in c["ops"].as_array().unwrap() {
             ops.push(match o["op"].as_str().unwrap() {
                 "read_conn" => Op::Conn(o["text"].as_str().unwrap().as_bytes().to_vec()),
@@ -1199,7 +1245,7 @@ fn replay_history(sink: &mut Sink, env: &Env, c: &Value) {
                 _ => Op::Compile(Attempt::Good),
             });
         }
-        let obs = observe_history(env, user, &ops, &["ああいいううええ".to_string()], false);
+        let obs = observe_history(env, user, &ops, &files, &["ああいいううええ".to_string()], false);
         println!("history on one {} builder (implementation only; failing sinks of the original run are replayed as good sinks):", if user { "user-dictionary" } else { "system-dictionary" });
         let id = sink.case_rust_only(json!({"kind": "c06-history", "shape": "replay"}), true);
         let mut conn_ok = false;
@@ -1210,7 +1256,7 @@ fn replay_history(sink: &mut Sink, env: &Env, c: &Value) {
                 Op::Resolve => ("resolve", String::new()),
                 Op::Compile(_) => ("compile", String::new()),
             };
-            println!("  call {} {} {:?} -> {} {}", i + 1, name, text.chars().take(200).collect::<String>(), ob.status, ob.msg);
+            println!("  call {} {}{} {:?} -> {} {}", i + 1, name, if files[i] { " (as a file path)" } else { "" }, text.chars().take(200).collect::<String>(), ob.status, ob.msg);
             if ob.status == "SPanic" {
                 sink.fail(id, &format!("call {} ({}) panicked: {}", i + 1, name, ob.msg), "");
             }
@@ -1224,6 +1270,7 @@ fn replay_history(sink: &mut Sink, env: &Env, c: &Value) {
         return;
     }
     let mut hops = vec![];
+    let files: Vec<bool> = c["ops"].as_array().unwrap().iter().map(|o| o["source"] == "file").collect();
     for o in c["ops"].as_array().unwrap() {
         let text = o["text"].as_str().unwrap_or("").to_string();
         hops.push(match o["op"].as_str().unwrap() {
@@ -1236,12 +1283,12 @@ fn replay_history(sink: &mut Sink, env: &Env, c: &Value) {
     println!("history on one {} builder:", if user { "user-dictionary" } else { "system-dictionary" });
     for (i, h) in hops.iter().enumerate() {
         match h {
-            HOp::Conn(_, t) | HOp::Lex(_, t) => println!("  call {} {} {:?}", i + 1, hop_name(h), t.chars().take(300).collect::<String>()),
+            HOp::Conn(_, t) | HOp::Lex(_, t) => println!("  call {} {}{} {:?}", i + 1, hop_name(h), if files[i] { " (as a file path)" } else { "" }, t.chars().take(300).collect::<String>()),
             _ => println!("  call {} {}", i + 1, hop_name(h)),
         }
     }
     println!("implementation:");
-    emit_history(sink, env, user, &hops, "replay", true);
+    emit_history_src(sink, env, user, &hops, &files, "replay", true);
 }
 
 /// a chunk of simple rows (no split references) with ids valid for an nl x nr matrix, surfaces unique per chunk number
@@ -1373,12 +1420,23 @@ fn rust_only_history(sink: &mut Sink, env: &Env, rng: &mut Rng) {
         ops.push(o);
         names.push(n.to_string());
     }
-    let obs = observe_history(env, user, &ops, &["ああいいううええ".to_string()], false);
+    // every read_conn / read_lexicon of a third of these histories takes its data as a file path, the others mix the kinds
+    let all_files = rng.chance(1, 3);
+    let files: Vec<bool> = ops.iter().map(|o| matches!(o, Op::Conn(_) | Op::Lex(_)) && (all_files || rng.chance(1, 3))).collect();
+    for (i, n) in names.iter_mut().enumerate() {
+        if files[i] {
+            n.push_str(" as a file");
+        }
+    }
+    let obs = observe_history(env, user, &ops, &files, &["ああいいううええ".to_string()], false);
     sink.tag(if user { "history_rust_only:user" } else { "history_rust_only:system" });
+    if files.iter().any(|f| *f) {
+        sink.tag("history_with_file_sources");
+    }
     sink.tag_n("history_calls", ops.len() as u64);
-    let jops: Vec<Value> = ops.iter().map(|o| match o {
-        Op::Conn(t) => json!({"op": "read_conn", "text": String::from_utf8_lossy(t)}),
-        Op::Lex(t) => json!({"op": "read_lexicon", "text": String::from_utf8_lossy(t)}),
+    let jops: Vec<Value> = ops.iter().enumerate().map(|(i, o)| match o {
+        Op::Conn(t) => json!({"op": "read_conn", "text": String::from_utf8_lossy(t), "source": source_name(&files, i)}),
+        Op::Lex(t) => json!({"op": "read_lexicon", "text": String::from_utf8_lossy(t), "source": source_name(&files, i)}),
         Op::Resolve => json!({"op": "resolve"}),
         Op::Compile(_) => json!({"op": "compile"}),
     }).collect();
@@ -1965,7 +2023,7 @@ pub fn run(args: &Args) {
     let dir = args.work.join("c06_res");
     std::fs::create_dir_all(&dir).unwrap();
     std::fs::copy(format!("{}/sudachi/tests/resources/char.def", repo()), dir.join("char.def")).unwrap();
-    let mut env = Env { dir, sys_bytes: vec![], hdr: Default::default() };
+    let mut env = Env { dir, sys_bytes: vec![], hdr: Default::default(), via_files: Default::default() };
     {
         let mut b = DictBuilder::new_system();
         b.read_conn(sys_matrix_text().as_bytes()).expect("sys matrix");
@@ -1986,6 +2044,10 @@ pub fn run(args: &Args) {
         };
         println!("replaying C06 case (shape {})", c["shape"]);
         *env.hdr.borrow_mut() = Hdr { descr: c["descr"].as_str().map(|x| x.to_string()), time: c["time"].as_u64() };
+        env.via_files.set(c["via_files"] == true);
+        if env.via_files.get() {
+            println!("matrix and lexicon are handed to the builder as file paths");
+        }
         if c["kind"] == "c06-route" {
             cli::replay_route(&mut sink, &env, args, c);
             sink.finish();
@@ -2327,7 +2389,12 @@ pub fn run(args: &Args) {
             *env.hdr.borrow_mut() = gen_hdr(&mut rng);
             sink.tag("with_header_settings");
         }
+        if it % 4 == 3 {
+            env.via_files.set(true);
+            sink.tag("sources_as_files");
+        }
         emit(&mut sink, &env, &mut rng, &case, &shape);
+        env.via_files.set(false);
         *env.hdr.borrow_mut() = Hdr::default();
         if it % 6 == 2 && !user && routed.len() < 300 {
             // the same abstract case goes through the command-line tool later
@@ -2372,6 +2439,18 @@ pub fn run(args: &Args) {
         ];
         for (shape, ops) in &directed {
             emit_history(&mut sink, &env, false, ops, shape, false);
+            // the same calls with their data handed over as file paths: all of them, only the matrices, only the last matrix
+            let is_conn: Vec<bool> = ops.iter().map(|o| matches!(o, HOp::Conn(..))).collect();
+            let is_src: Vec<bool> = ops.iter().map(|o| matches!(o, HOp::Conn(..) | HOp::Lex(..))).collect();
+            let last_conn = is_conn.iter().rposition(|c| *c);
+            let only_last: Vec<bool> = (0..ops.len()).map(|i| Some(i) == last_conn).collect();
+            emit_history_src(&mut sink, &env, false, ops, &is_src, &format!("{}_files", shape), false);
+            if is_conn.iter().filter(|c| **c).count() >= 1 && is_conn != is_src {
+                emit_history_src(&mut sink, &env, false, ops, &is_conn, &format!("{}_matrix_files", shape), false);
+            }
+            if is_conn.iter().filter(|c| **c).count() >= 2 {
+                emit_history_src(&mut sink, &env, false, ops, &only_last, &format!("{}_last_matrix_file", shape), false);
+            }
         }
         // user-dictionary builders: rows with ids beyond the system dictionary's matrix / a dangling reference after resolve
         {
@@ -2381,6 +2460,7 @@ pub fn run(args: &Args) {
             edge[0].right = Num::Lit(0);
             let mut dang = chunk(5, 1, SYS_NL, SYS_NR, &mut r9);
             dang[0].wstruct = vec![Wid::Lit(true, 40)];
+            emit_history_src(&mut sink, &env, true, &[lex_op(ok.clone()), HOp::Resolve, lex_op(edge.clone()), HOp::Compile], &[true, false, true, false], "directed_user_rows_after_resolve_files", false);
             emit_history(&mut sink, &env, true, &[lex_op(ok.clone()), HOp::Resolve, lex_op(edge), HOp::Compile], "directed_user_rows_after_resolve", false);
             emit_history(&mut sink, &env, true, &[lex_op(ok.clone()), HOp::Resolve, HOp::Compile, lex_op(dang), HOp::Compile, HOp::Resolve, HOp::Compile], "directed_user_rows_after_resolve", false);
         }
@@ -2397,6 +2477,8 @@ pub fn run(args: &Args) {
             }
             ops.extend(vec![lex_op(a), lex_op(b), HOp::Resolve, HOp::Compile, lex_op(c), HOp::Compile]);
             emit_history(&mut sink, &env, user, &ops, "directed_homographs_over_several_calls", false);
+            let files: Vec<bool> = ops.iter().map(|o| matches!(o, HOp::Conn(..) | HOp::Lex(..))).collect();
+            emit_history_src(&mut sink, &env, user, &ops, &files, "directed_homographs_over_several_calls_files", false);
         }
     }
     for i in 0..args.n(260, 4000) {
@@ -2405,7 +2487,13 @@ pub fn run(args: &Args) {
         if i % 5 == 0 {
             *env.hdr.borrow_mut() = gen_hdr(&mut rng);
         }
-        emit_history(&mut sink, &env, user, &ops, &shape, false);
+        // the data source of every read_conn / read_lexicon is a dimension of the history: bytes, file paths, a mix
+        let files: Vec<bool> = match i % 3 {
+            0 => vec![],
+            1 => ops.iter().map(|o| matches!(o, HOp::Conn(..) | HOp::Lex(..))).collect(),
+            _ => ops.iter().map(|o| matches!(o, HOp::Conn(..) | HOp::Lex(..)) && rng.chance(1, 2)).collect(),
+        };
+        emit_history_src(&mut sink, &env, user, &ops, &files, &shape, false);
         *env.hdr.borrow_mut() = Hdr::default();
     }
     for _ in 0..args.n(200, 4000) {
